@@ -12,6 +12,9 @@ import (
 	gossh "golang.org/x/crypto/ssh"
 )
 
+// MaxBeforeContext is the largest accepted 'before' line context.
+const MaxBeforeContext = 100000
+
 // Args is a helper struct to summarize common client arguments.
 type Args struct {
 	lcontext.LContext
@@ -151,6 +154,11 @@ func setOption(key, val string, options map[string]string, ltx *lcontext.LContex
 		iVal, err := strconv.Atoi(val)
 		if err != nil {
 			return options, err
+		}
+		// The server buffers that many lines per file; the value comes from the client.
+		if iVal > MaxBeforeContext {
+			return options, fmt.Errorf("Before context of %d lines is too large (max %d)",
+				iVal, MaxBeforeContext)
 		}
 		ltx.BeforeContext = iVal
 	case "after":
